@@ -334,6 +334,29 @@ TASK_FIND = '''
     }
 '''
 
+TASK_COLKEYS = '''
+    /// keys only: the (key, value) pairs of these kernels cannot be read back in full (CBMC capacity), the sort keys can
+    fn check_task_keys(n: usize, c: usize, mine: [bool; MAXN]) {
+        let log = Log::new();
+        let (it, data, cl) = task_setup(&log, n, c, mine);
+        let f0 = cl.{f0}();
+        let f1 = cl.fil();
+        let got = task(&it, &f0, &f1, c);
+        let (_exp, keys, m) = worker_outputs(&cl, Kind::{kind}, data, n, c, mine);
+        assert!(got.len() == m, "C01: the worker's result has missing or extra elements");
+        let mut g = 0;
+        while g < {maxout} {
+            if g < m {
+                assert!(got[g].0 == {keyexpr}, "C01: key is not (source position, inner position): keys must be strictly increasing per worker and unique across workers");
+            }
+            g += 1;
+        }
+        pull_log_ok(&log);
+        kani::cover!(m >= 1);
+        kani::cover!(m >= 2);
+    }
+'''
+
 TASK_TEMPLATES = dict(col=TASK_COL, colx=TASK_COLX, cnt=TASK_CNT, red=TASK_RED, find=TASK_FIND)
 
 
@@ -651,6 +674,18 @@ def gen_kernel_module(kernel):
                                    shape=dict(n=n, chunk=c, blocks_of_this_worker=list(mine), op=op),
                                    covers_expected=(2 if nmine >= 1 else (1 if fam == 'find' else 0)),
                                    bound='n=%d elements, chunk size %d, worker receives blocks %s; symbolic data (u8), symbolic closure tables over a 4-value domain' % (n, c, _mname(mine)))
+    if kernel in ('filtermap_fil_col', 'flatmap_fil_col'):
+        body.append(_fill(TASK_COLKEYS, f0=k['f0'], kind=k['kind'], keyexpr=keyexpr, maxout=('6' if k['kind'] == 'FLF' else '3')))
+        kshapes = [(3, 2, (False, True)), (2, 1, (False, True)), (2, 2, (True,))] if k['kind'] == 'FLF' else [(3, 1, (True, False, True)), (3, 2, (True, True))]
+        for (n, c, mine) in kshapes:
+            name = 'k_taskkeys_%s_n%dc%d_m%s' % (kernel, n, c, _mname(mine))
+            nm = sum(1 for i in range(n) if mine[i // c])
+            unwind = max(n, (2 * nm) if k['kind'] == 'FLF' else nm, 2) + 2
+            body.append('    #[kani::proof]\n    #[kani::unwind(%d)]\n    fn %s() { check_task_keys(%d, %d, %s); }\n' % (unwind, name, n, c, _mask(mine)))
+            HARNESSES[name] = dict(kernel=kernel, family='task_colkeys', props=['C01', 'C11'], tier='thorough', bounded=True,
+                                   path='core::%s::vk::%s' % (kernel, name), shape=dict(n=n, chunk=c, blocks_of_this_worker=list(mine), checks='length and sort keys only'),
+                                   covers_expected=(2 if (nm >= 2 or k['kind'] == 'FLF') else 1),
+                                   bound='n=%d elements, chunk size %d, worker receives blocks %s; symbolic data and closure tables; only the number of results and their sort keys are compared' % (n, c, _mname(mine)))
     gen_glue(kernel, body)
     body.append('}')
     return '\n'.join(body) + '\n'
@@ -864,7 +899,10 @@ QUICK_API = {
     ('map_fil_fil', 'count'), ('fil_fil', 'count'), ('fmap_fil_fil', 'count'), ('flat_fil_fil', 'count'), ('fil_map', 'count'), ('map_fil_map', 'count'),
 }
 # sequential-mode only additions (cheap there, intractable with two workers + merge contract)
-QUICK_API_SEQ = {('flat', 'reduce'), ('flat_fil_fil', 'count'), ('fil_map', 'collect_vec'), ('map_fil_fil', 'collect_vec'), ('map_fil_map', 'collect_vec'), ('fmap_fil', 'count'), ('fmap_fil', 'max')}
+QUICK_API_SEQ = {('flat', 'reduce'), ('flat_fil_fil', 'count'), ('fmap_fil', 'count'), ('fmap_fil', 'max')}
+# sequential collect_vec of map+filter style chains: 150-260 s when it works, and one run of the same harness grew to
+# 50 GB: optional (thorough) only
+SEQ_HEAVY = {('map_fil', 'collect_vec'), ('fmap', 'collect_vec'), ('fil_map', 'collect_vec'), ('map_fil_fil', 'collect_vec'), ('map_fil_map', 'collect_vec')}
 # combinations whose CBMC run exceeds 20 GB / 10 min even on 2 elements: never scheduled, reported as not covered
 INTRACTABLE = {
     ('par2', 'fil_map', 'collect_vec'), ('par2', 'map_fil_fil', 'collect_vec'), ('par2', 'map_fil_map', 'collect_vec'),
@@ -903,6 +941,8 @@ def gen_api():
                         tier = 'quick' if (chain, term) in (('map', 'into_vec'), ('map_fil', 'into_vec'), ('map', 'into_split_full')) else 'thorough'
                     t2 = tier if ((chain, term) in QUICK_API or (mode == 'seq' and (chain, term) in QUICK_API_SEQ) or term.startswith('into_')) else 'thorough'
                     if flat and term in ('collect_x',):
+                        t2 = 'thorough'
+                    if mode == 'seq' and (chain, term) in SEQ_HEAVY:
                         t2 = 'thorough'
                     name = 'k_api_%s_%s_%s_n%dc%d_o%s' % (mode, chain, term, n, c, ''.join(str(x) for x in owner))
                     pr = tprops[0]
